@@ -24,7 +24,6 @@ pub open spec fn inv_fee(w: World) -> bool {
     &&& forall|i: u32| i >= fcount(w) ==> (#[trigger] ftoken(w, i)).is_none()
 }
 
-pub open spec fn w_event(w: World, ev: SV) -> World { World { events: w.events.push(ev), ..w } }
 
 // ---- exact successor states of set_allowed_fee_token ----
 pub open spec fn allow_store(w: World, t: Address) -> World {
@@ -321,4 +320,3 @@ pub proof fn lemma_forward_property(w: World, w2: World, tok: Address, fee: i128
     }
 }
 
-pub open spec fn w_auth(w: World, a: Address) -> World { World { auths: w.auths.insert(a), ..w } }
